@@ -97,24 +97,34 @@ RespFail(t) == /\ rop[t][1] = "sc"
                            /\ mon' = RespReturn(mon, t, rid, FALSE, FALSE)
                   ELSE /\ mon' = RespReturn(mon, t, rid, FALSE, FALSE) /\ UNCHANGED <<att, sp>>
                /\ UNCHANGED <<op, pc, cur, snap, fresh, npkt, ncalls, hist>>
-\* addAttempt (:122-139): refused when the id is in the puncher's table - the attempt of the call that owns the id
-\* stays as it is (the "dupreg" mutant has already overwritten its metadata on the socket)
+\* addAttempt (:122-139), first critical section (p.mu): refused when the id is in the puncher's table - the attempt
+\* of the call that owns the id stays as it is (the "dupreg" mutant has already overwritten its metadata on the socket)
 RespAdd(t) == /\ rop[t][1] = "sc"
               /\ LET a == rop[t][2]  rid == rop[t][3] IN
                  IF rid \in sp
                  THEN /\ rop' = [rop EXCEPT ![t] = RIdle]
                       /\ att' = IF Mut = "dupreg" THEN [att EXCEPT ![rid] = a] ELSE att
                       /\ mon' = RespReturn(mon, t, rid, FALSE, TRUE) /\ UNCHANGED sp
-                 ELSE /\ rop' = [rop EXCEPT ![t] = <<"sa", a, rid>>]
-                      /\ att' = [att EXCEPT ![rid] = a] /\ sp' = sp \cup {rid} /\ mon' = mon
+                 ELSE /\ rop' = [rop EXCEPT ![t] = <<"sb", a, rid>>]
+                      /\ sp' = sp \cup {rid} /\ mon' = mon /\ UNCHANGED att
               /\ UNCHANGED <<op, pc, cur, snap, fresh, npkt, ncalls, hist>>
-\* result, timeout or cancellation: the deferred removeAttempt (:141-146) runs
-RespDone(t) == /\ rop[t][1] = "sa"
+\* addAttempt, second critical section (the socket's c.mu, conn.AddPunchAttempt): only now are the attempt's packets diverted
+RespReg(t) == /\ rop[t][1] = "sb"
+              /\ rop' = [rop EXCEPT ![t] = <<"sa", rop[t][2], rop[t][3]>>]
+              /\ att' = [att EXCEPT ![rop[t][3]] = rop[t][2]]
+              /\ UNCHANGED <<op, sp, pc, cur, snap, fresh, npkt, ncalls, mon, hist>>
+\* result, timeout or cancellation: the deferred removeAttempt (:141-146) runs - the socket's registry first (c.mu) ...
+RespUnreg(t) == /\ rop[t][1] = "sa"
+                /\ rop' = [rop EXCEPT ![t] = <<"sd", rop[t][2], rop[t][3]>>]
+                /\ att' = [att EXCEPT ![rop[t][3]] = 0]
+                /\ UNCHANGED <<op, sp, pc, cur, snap, fresh, npkt, ncalls, mon, hist>>
+\* ... then the puncher's table (p.mu; until then a call with the same id is still refused), and the return
+RespDone(t) == /\ rop[t][1] = "sd"
                /\ rop' = [rop EXCEPT ![t] = RIdle]
                /\ LET rid == rop[t][3] IN
-                  /\ att' = [att EXCEPT ![rid] = 0] /\ sp' = sp \ {rid}
+                  /\ sp' = sp \ {rid}
                   /\ \E ok \in BOOLEAN : mon' = RespReturn(mon, t, rid, ok, FALSE)
-               /\ UNCHANGED <<op, pc, cur, snap, fresh, npkt, ncalls, hist>>
+               /\ UNCHANGED <<att, op, pc, cur, snap, fresh, npkt, ncalls, hist>>
 
 \* ---------------- reader (punch_conn.go:117-165)
 RCall == /\ pc = "call" /\ pc' = "wait"
@@ -154,7 +164,7 @@ Init == /\ att = [id \in Ids |-> 0] /\ op = [id \in Ids |-> <<"idle", 0>>] /\ sp
 Next == \/ \E id \in Ids : \/ \E a \in MetaS : AddCall(id, a)
                            \/ AddEff(id) \/ AddRet(id) \/ RemCall(id) \/ RemEff(id) \/ RemRet(id)
         \/ \E t \in RT : \/ \E rid \in Ids, a \in MetaS : RespCall(t, rid, a)
-                          \/ RespFail(t) \/ RespAdd(t) \/ RespDone(t)
+                          \/ RespFail(t) \/ RespAdd(t) \/ RespReg(t) \/ RespUnreg(t) \/ RespDone(t)
         \/ RCall \/ RDecide \/ REnd
         \/ \E kind \in Kinds : RInject(kind)
 Spec == Init /\ [][Next]_vars
